@@ -69,6 +69,9 @@ def run(tier):
         jobs.append(dict(groups=gs, tag="stack-preload-" + api, api=api, options=o,
                          knobs=dict(base, VF_BUDGET_DEFAULT=2, VF_BUDGET_TOTAL=2, VF_BEGIN_OUTSIDE=1,
                                     VF_PRELOADS="0,1,24,25,26,49,50,51,101"), driver_args=["-H", "400"]))
+        # the same on a scanner that has never been started - no yybegin() before the pushes either (round-5 seed C05-r5m1)
+        jobs.append(dict(groups=gs[:1], tag="stack-preload-fresh-" + api, api=api, options=o,
+                         knobs=dict(base, VF_BUDGET_DEFAULT=2, VF_BUDGET_TOTAL=2, VF_BEGIN_OUTSIDE=2, VF_PRELOADS="0,1,2,3,26"), driver_args=["-H", "400"]))
     tot = dict(executions=0, tokens=0, choice_points=0, op_effects=0, nontrivial=0, inputs=0, expected_fatals=0)
     ops_hist = [0] * 16
     nspecs = 0
